@@ -217,7 +217,18 @@ def consensus(
     super_reads = [[], []]
     components = dict()
 
+    def keeps_phase(phase: Optional[VariantCallPhase]) -> bool:
+        return (
+            phase is not None
+            and phase.block_id is not None
+            and len(phase.phase) == 2
+            and None not in phase.phase
+        )
+
     for pos, vote in votes.items():
+        if keeps_phase(phased[pos]):
+            # Already phased: not re-derived from votes, which could move it to another phase set
+            continue
         best_allele, phase_set, fraction, score = best_candidate(vote)
         components[pos] = phase_set
         if phased[pos] is None:
@@ -236,11 +247,9 @@ def consensus(
         super_reads[1].append(
             Variant(pos, allele=id_to_allele[pos][1 - best_allele], quality=score)
         )
-    # Variants that are already phased but are not covered by any tagged read keep their phasing
+    # Variants that are already phased keep their phasing
     for pos, phase in phased.items():
-        if phase is None or pos in votes or phase.block_id is None:
-            continue
-        if len(phase.phase) != 2 or None in phase.phase:
+        if not keeps_phase(phase):
             continue
         components[pos] = phase.block_id - 1
         quality = phase.quality if phase.quality is not None else 0
